@@ -758,7 +758,8 @@ func sizeMultiple(v ssa.Value) (int64, bool) {
 }
 
 // unspill: the value a return hands back as result i. In a function with defers go/ssa spills the results into cells
-// (`*r = v; rundefers; t = *r; return t`): the store in the return's own block is looked through.
+// (`*r = v; rundefers; t = *r; return t`): the store before the RunDefers of the return's own block is looked through.
+// Without a RunDefers between a store and the load nothing is a spill (`dst := T{}; ...; return dst` loads a local).
 func unspill(ret *ssa.Return, i int) ssa.Value {
 	v := ret.Results[i]
 	u, ok := v.(*ssa.UnOp)
@@ -770,7 +771,16 @@ func unspill(ret *ssa.Return, i int) ssa.Value {
 		return v
 	}
 	blk := ret.Block()
-	for j := len(blk.Instrs) - 1; j >= 0; j-- {
+	rd := -1
+	for j, in := range blk.Instrs {
+		if _, isRD := in.(*ssa.RunDefers); isRD {
+			rd = j
+		}
+	}
+	if rd < 0 || instrIndex(u) < rd || u.Block() != blk {
+		return v
+	}
+	for j := rd - 1; j >= 0; j-- {
 		if st, ok := blk.Instrs[j].(*ssa.Store); ok && st.Addr == ssa.Value(al) {
 			return st.Val
 		}
